@@ -214,7 +214,7 @@ pub fn run(r: &Report, host: Option<&HostData>) {
     let st = pts
         .par_iter()
         .fold(Stats::default, |mut st, p| {
-            if r.over_budget_frac(0.8) {
+            if r.over_budget_frac(0.9) {
                 capped.store(true, std::sync::atomic::Ordering::Relaxed);
                 st.count("hostmseg.skipped_by_cap", 1);
                 return st;
